@@ -14,6 +14,27 @@ func init() {
 func checkC29(p *Prog, r *Report) {
 	r.Explanation = "Clean-failure and lookup clauses of the CAS filesystem view. (1) E11 recursion measure: CASFileSystem.open follows symlink targets taken from the tree (external data) by calling itself; the recursive call must carry an integer that grows by a constant and is compared with a limit on an edge that returns an error, so a loop of links fails cleanly instead of overflowing the stack. (2) the absolute-target test dominates the recursive call and returns an error; `..` components are refused in findNode. (3) per-hop resolution: the next path is Join(Dir(x), target) where x is the very path this frame looked up (the first argument of the findNode call that produced the link). (4) findNode's recursion consumes its path: the recursive argument is the remainder returned by strings.Cut. (5) exhaustive lookup: the loops over a directory's Directories / Files / Symlinks are left early only on a name match (no assumption that entries are sorted). io/fs conformance (fstest) is not decided."
 	r.NotCovered = []string{"io/fs contracts (ReadDir ordering, Stat/Open agreement)", "content of files read from the CAS", "symlinks to directories followed in the middle of a path"}
+	// every open hands out its own file object: a handle carries a read offset and the name/mode of the node it was
+	// opened through, so an object shared between opens (a cache keyed by digest) mixes both up
+	if of := p.Fn("remote/fs", "CASFileSystem.openFile"); of == nil {
+		r.unresolved("E8.handle-is-fresh", "remote/fs.CASFileSystem.openFile")
+	} else {
+		n, bad := 0, 0
+		var site token.Pos
+		for _, rc := range returnCases(of, 0) {
+			if isNilConst(rc.Vals[0]) {
+				continue
+			}
+			n++
+			for _, ar := range aliasRoots(rc.Vals[0]) {
+				if ar.kind != rootFresh {
+					bad++
+					site = rc.Site
+				}
+			}
+		}
+		r.check(n > 0 && bad == 0, "E8.handle-is-fresh", "openFile returns a newly allocated file on every path", p.pos(site), fnName(of), itoa(n)+" non-nil return(s), each a fresh object", "openFile can return a file object that it did not allocate for this call (e.g. one remembered per digest): two handles on the same content share one read offset, and a second path with identical bytes reports the first one's name and mode")
+	}
 	open := p.Fn("remote/fs", "CASFileSystem.open")
 	find := p.Fn("remote/fs", "CASFileSystem.findNode")
 	if open == nil || find == nil {
